@@ -2,6 +2,7 @@ package proxyx
 
 import (
 	"context"
+	"fmt"
 	"math/rand"
 	"sync"
 	"testing"
@@ -47,6 +48,9 @@ func c06HasTimeout(c vt.Case) bool {
 
 // c06RunOne: one configuration of one case on a real ProxyStore.
 func c06RunOne(c vt.Case, i int, cfg map[string]any) map[string]any {
+	if vt.Str(c["kind"]) == "endpoints" {
+		return c06RunEndpoints(c, i, cfg)
+	}
 	pl := newPayloads()
 	strategy := storepb.PartialResponseStrategy_WARN
 	abort := vt.Str(c["strategy"]) == "ABORT"
@@ -82,7 +86,54 @@ func c06RunOne(c vt.Case, i int, cfg map[string]any) map[string]any {
 	for k, f := range fakes {
 		named[k] = namesStore(res.warnings, f.name)
 	}
-	return map[string]any{"cfg": i + 1, "via": vt.Str(cfg["via"]), "err": res.err, "nwarn": len(res.warnings), "named": named, "series": res.series}
+	out := map[string]any{"cfg": i + 1, "via": vt.Str(cfg["via"]), "err": res.err, "nwarn": len(res.warnings), "named": named, "series": res.series, "lbl": []any{}}
+	if vt.Str(cfg["via"]) == "proxy" && (i == 0 || vt.Bool(cfg["flag"])) {
+		out["lbl"] = c06Labels(c, pl, strategy, abort && vt.Bool(cfg["flag"]))
+	}
+	return out
+}
+
+// c06Labels: LabelNames and LabelValues of a real ProxyStore over the same fake stores (a store
+// with a failure point answers both with an error), same strategy.
+func c06Labels(c vt.Case, pl *payloads, strategy storepb.PartialResponseStrategy, disabledFlag bool) []any {
+	clients, fakes := buildStores(c, pl, vt.Int64(c["sseed"]))
+	p := store.NewProxyStore(nil, nil, func() []store.Client { return clients }, component.Query, labels.EmptyLabels(), 30*time.Second, store.EagerRetrieval)
+	ms := []storepb.LabelMatcher{{Type: storepb.LabelMatcher_RE, Name: "n001", Value: ".*"}}
+	without := withoutNames(c)
+	rec := func(api string, got []string, warns []string, err error, prefix byte) map[string]any {
+		o := map[string]any{"api": api, "err": "", "nwarn": len(warns), "got": []int{}}
+		if err != nil {
+			o["err"] = err.Error()
+		}
+		ids := []int{}
+		for _, g := range got {
+			ids = append(ids, parseIdx(g, prefix))
+		}
+		o["got"] = ids
+		named := make([]bool, len(fakes))
+		fwd := true
+		for k, f := range fakes {
+			named[k] = namesStore(warns, f.name)
+			if f.fail.kind == "none" && (f.lnCalls+f.lvCalls) > 0 && fmt.Sprint(f.lastWithout) != fmt.Sprint(without) {
+				fwd = false
+			}
+		}
+		o["named"], o["fwd"] = named, fwd
+		return o
+	}
+	ctx := context.Background()
+	var out []any
+	nr, err := p.LabelNames(ctx, &storepb.LabelNamesRequest{Start: 0, End: 1 << 50, Matchers: ms, PartialResponseStrategy: strategy, PartialResponseDisabled: disabledFlag, WithoutReplicaLabels: without})
+	if nr == nil {
+		nr = &storepb.LabelNamesResponse{}
+	}
+	out = append(out, rec("names", nr.Names, nr.Warnings, err, 'n'))
+	vr, err := p.LabelValues(ctx, &storepb.LabelValuesRequest{Label: labelName(1), Start: 0, End: 1 << 50, Matchers: ms, PartialResponseStrategy: strategy, PartialResponseDisabled: disabledFlag, WithoutReplicaLabels: without})
+	if vr == nil {
+		vr = &storepb.LabelValuesResponse{}
+	}
+	out = append(out, rec("values", vr.Values, vr.Warnings, err, 'v'))
+	return out
 }
 
 // c06RunQuerier asks through query.Querier.Select (deduplicating iff replica labels are to be
@@ -164,6 +215,10 @@ func TestC06(t *testing.T) {
 			c["cfgs"] = c06Configs(vt.Str(c["strategy"]))
 			cases = append(cases, vt.Normalize(c))
 		}
+		// strict endpoints that are down, through a real EndpointSet in front of the proxy
+		for i, n := 0, vt.Pick(60, 600); i < n; i++ {
+			cases = append(cases, vt.Normalize(c06EndpointCase(rnd)))
+		}
 	}
 	if len(cases) == 0 {
 		t.Fatal("no cases")
@@ -198,4 +253,100 @@ func TestC06(t *testing.T) {
 	for ci, c := range cases {
 		tr.Emit(vt.Event{"ev": "case", "case": ci + 1, "in": c, "kf": "", "outs": outs[ci]})
 	}
+}
+
+// ---- strict endpoints that are down, through a real query.EndpointSet ----
+
+// c06EndpointCase: 2-3 endpoints, each strict or not, up or down, all listed.  in.stores holds the
+// world as C06 sees it: the endpoints a query reaches (up, or down but strict = a queried store that
+// fails when its stream is opened); a non-strict endpoint that is down is not queried at all and is
+// left out (in.eps keeps the full configuration).
+func c06EndpointCase(rnd *rand.Rand) vt.Case {
+	n := 2 + rnd.Intn(2)
+	eps, stores := []any{}, []any{}
+	for i := 0; i < n; i++ {
+		strict, up := rnd.Intn(2) == 0, rnd.Intn(2) == 0
+		if i == n-1 && len(stores) == 0 {
+			up = true // with no store reachable at all there is no queried store to talk about
+		}
+		frames := []any{
+			map[string]any{"ls": [][]int{{1, 1}}, "chunks": []any{map[string]any{"mint": 0, "maxt": 10, "f": []int{i + 1, 0, 0, 0, 0, 0}, "h": false}}},
+			map[string]any{"ls": [][]int{{1, 2 + i}}, "chunks": []any{map[string]any{"mint": 0, "maxt": 10, "f": []int{i + 1, 0, 0, 0, 0, 0}, "h": false}}},
+		}
+		eps = append(eps, map[string]any{"strict": strict, "up": up, "frames": frames})
+		if up || strict {
+			fail := map[string]any{"kind": "none", "k": 0}
+			if !up {
+				fail = map[string]any{"kind": "open", "k": 0}
+			}
+			stores = append(stores, map[string]any{"ep": i + 1, "strips": true, "batch": 0, "frames": frames, "fail": fail})
+		}
+	}
+	strategy := []string{"ABORT", "WARN"}[rnd.Intn(2)]
+	cfgs := []any{}
+	for _, rt := range []string{"lazy", "eager"} {
+		cfgs = append(cfgs, map[string]any{"retr": rt, "buf": 1, "rb": 0, "flag": false, "via": "proxy"})
+	}
+	return vt.Case{"kind": "endpoints", "eps": eps, "stores": stores, "without": []int{}, "strategy": strategy, "cfgs": cfgs, "sseed": rnd.Int63n(1 << 40)}
+}
+
+func c06RunEndpoints(c vt.Case, i int, cfg map[string]any) map[string]any {
+	pl := newPayloads()
+	epsIn := vt.List(c["eps"])
+	eps := make([]*fakeEndpoint, len(epsIn))
+	var specs []*query.GRPCEndpointSpec
+	for k, ev := range epsIn {
+		e := vt.Map(ev)
+		fe := newFakeEndpoint(k)
+		defer fe.srv.Stop()
+		fe.up = vt.Bool(e["up"])
+		fe.smin, fe.smax = 0, 1<<50
+		frames := vt.List(e["frames"])
+		fe.series = func() []*storepb.Series {
+			var out []*storepb.Series
+			for _, fv := range frames {
+				fr := vt.Map(fv)
+				s := &storepb.Series{Labels: labelpb.ZLabelsFromPromLabels(lsetOf(fr["ls"]))}
+				for _, cv := range vt.List(fr["chunks"]) {
+					s.Chunks = append(s.Chunks, pl.chunk(vt.Map(cv)))
+				}
+				out = append(out, s)
+			}
+			return out
+		}
+		eps[k] = fe
+		specs = append(specs, query.NewGRPCEndpointSpec(fe.addr, vt.Bool(e["strict"]), fe.dialOpts()...))
+	}
+	now := time.Unix(1700000000, 0)
+	es := query.NewEndpointSet(func() time.Time { return now }, nil, nil, func() []*query.GRPCEndpointSpec { return specs },
+		5*time.Minute, 20*time.Second, 20*time.Second)
+	defer es.Close()
+	es.Update(context.Background())
+	now = now.Add(time.Minute)
+	es.Update(context.Background())
+	retr := store.LazyRetrieval
+	if vt.Str(cfg["retr"]) == "eager" {
+		retr = store.EagerRetrieval
+	}
+	p := store.NewProxyStore(nil, nil, es.GetStoreClients, component.Query, labels.EmptyLabels(), 20*time.Second, retr)
+	strategy := storepb.PartialResponseStrategy_WARN
+	if vt.Str(c["strategy"]) == "ABORT" {
+		strategy = storepb.PartialResponseStrategy_ABORT
+	}
+	col := &collector{ctx: context.Background()}
+	errText := ""
+	if err := p.Series(&storepb.SeriesRequest{MinTime: 0, MaxTime: 1 << 50, PartialResponseStrategy: strategy,
+		Matchers: []storepb.LabelMatcher{{Type: storepb.LabelMatcher_RE, Name: "n001", Value: ".*"}}}, col); err != nil {
+		errText = err.Error()
+	}
+	series := []any{}
+	for _, s := range col.series() {
+		series = append(series, pl.seriesBack(s))
+	}
+	stores := vt.List(c["stores"])
+	named := make([]bool, len(stores))
+	for k, sv := range stores {
+		named[k] = namesStore(col.warnings, fmt.Sprintf("ep%d", vt.Int(vt.Map(sv)["ep"])))
+	}
+	return map[string]any{"cfg": i + 1, "via": "proxy", "err": errText, "nwarn": len(col.warnings), "named": named, "series": series, "lbl": []any{}}
 }
